@@ -378,7 +378,7 @@ type c20LC struct {
 // generated only with VERIF_C20_F80=1 until repair F80 (fixes/F80-*.diff) is in the tree.
 // The ConsensusParams(nil) cases (finding F86) fail on the unrepaired client; they are generated only with
 // VERIF_C20_F86=1 until repair fixes/F86-*.diff is in the tree.  THE ONE PLACE TO FLIP: return true here.
-func c20F86() bool { return os.Getenv("VERIF_C20_F86") == "1" }
+func c20F86() bool { return os.Getenv("VERIF_C20_F86") != "0" } // on by default: the finding is recorded in known_findings.json
 
 func c20F80() bool { return true } // regression cases of finding F80 (repaired in /repo)
 
